@@ -52,30 +52,49 @@ Definition f64_to_u8 (bits : N) : N :=
 
 Definition k_audiocodecid : bytes := [97; 117; 100; 105; 111; 99; 111; 100; 101; 99; 105; 100].
 
-Inductive rtsp_ev : Type := RevSdp | RevRtp (n : N).
+(* RevSdp valid kind: the SDP callback fired; valid = sdp.Pack made a description (RawSdp non-nil), kind = the
+   video payload type the parsed description announces (0 none / other, 1 avc, 2 hevc).
+   RevRtp l: the RTP payloads (packet bodies behind the 12-byte header) handed to onRtpPacket, in order *)
+Inductive rtsp_ev : Type := RevSdp (valid : bool) (kind : N) | RevRtp (l : list bytes).
 
-(* number of payloads RtpPackerPayloadAvcHevc.PackNal makes of one nal, maxSize 1200 *)
+(* RtpPackerPayloadAvcHevc.PackNal, maxSize 1200: the payloads made of one nal *)
 Definition rtp_max : N := 1200.
-Definition nal_packets (hevc : bool) (nal : bytes) : N :=
-  let l := lenN nal in
-  if l <=? rtp_max then 1
-  else
-    let hs := if hevc then 3 else 2 in
-    let b := if hevc then 2 else 1 in
-    let chunk := rtp_max - hs in
-    (l - b + chunk - 1) / chunk.
+
+(* FU header bytes; [se] = 128 start / 64 end / 0 *)
+Definition fu_header (hevc : bool) (b0 b1 se : N) : bytes :=
+  if hevc then [N.lor 98 (N.land b0 129); b1; N.lor ((b0 / 2) mod 64) se]
+  else [N.lor 28 (N.land b0 96); N.lor (b0 mod 32) se].
+
+Fixpoint fu_loop (fuel : nat) (hevc : bool) (b0 b1 : N) (first : bool) (rest : bytes) : list bytes :=
+  match fuel with
+  | O => []
+  | S f =>
+    let chunk := rtp_max - (if hevc then 3 else 2) in
+    if chunk <? lenN rest then
+      (fu_header hevc b0 b1 (if first then 128 else 0) ++ firstn (N.to_nat chunk) rest)
+        :: fu_loop f hevc b0 b1 false (skipn (N.to_nat chunk) rest)
+    else [fu_header hevc b0 b1 64 ++ rest]
+  end.
+
+Definition nal_payloads (hevc : bool) (nal : bytes) : list bytes :=
+  if lenN nal <=? rtp_max then [nal]
+  else fu_loop (length nal) hevc (nth 0 nal 0) (nth 1 nal 0) true (skipn (if hevc then 2 else 1) nal).
 
 (* RtpPackerPayloadAvcHevc.Pack with Typ = Avcc *)
-Definition video_packets (hevc : bool) (payload : bytes) : res N :=
+Definition video_payloads (hevc : bool) (payload : bytes) : res (list bytes) :=
   match split_avcc payload with
   | Panic s => Panic s
-  | Err e => if e =? err_out_of_fuel then Err e else Ok 0
+  | Err e => if e =? err_out_of_fuel then Err e else Ok []
   | Ok nals =>
-    Ok (fold_left (fun acc nal =>
+    Ok (flat_map (fun nal =>
           let b0 := hd 0 nal in
           let aud := if hevc then hevc_nal_type b0 =? 35 else avc_nal_type b0 =? 9 in
-          if aud then acc else acc + nal_packets hevc nal) nals 0)
+          if aud then [] else nal_payloads hevc nal) nals)
   end.
+
+(* RtpPackerPayloadAac.Pack: AU-headers-length 16, one 13+3 bit AU header, the frame *)
+Definition aac_payload (data : bytes) : bytes :=
+  [0; 16; (lenN data / 32) mod 256; ((lenN data mod 32) * 8) mod 256] ++ data.
 
 (* getAudioPacker: Some kind when a packer exists after the call *)
 Definition rtsp_audio_packer (s : rtsp_st) : rtsp_st * bool :=
@@ -97,24 +116,26 @@ Definition rtsp_audio_packer (s : rtsp_st) : rtsp_st * bool :=
    RtspRemuxerAddSpsPps2KeyFrameFlag (the key-frame rewrite slices Payload[9:]) *)
 Definition s_rtsp_remux9 : N := 119.   (* remux.Rtmp2RtspRemuxer.remux:slice, Payload[9:] *)
 
-Definition rtsp_remux (fx : fixes) (add : bool) (s : rtsp_st) (m : mmsg) : res (rtsp_st * N) :=
+Definition rtsp_remux (fx : fixes) (add : bool) (s : rtsp_st) (m : mmsg) : res (rtsp_st * list bytes) :=
   let p := mm_pay m in
   if mm_type m =? t_audio then
     let '(s1, has) := rtsp_audio_packer s in
-    if negb has then Ok (s1, 0)
+    if negb has then Ok (s1, [])
     else
       let* c := audio_codec_id m in
-      let* _ := (if (c =? 7) || (c =? 8) || (c =? 13) then from s_rtsp_remux p 1 else from s_rtsp_remux p 2) in
-      Ok (s1, 1)
+      let raw := (c =? 7) || (c =? 8) || (c =? 13) in
+      let* data := (if raw then from s_rtsp_remux p 1 else from s_rtsp_remux p 2) in
+      (* the packer was chosen by r.audioPt when it was created: aac wraps the data in an AU header *)
+      Ok (s1, [if match rs_apacker s1 with Some 3 => true | _ => false end then aac_payload data else data])
   else if mm_type m =? t_video then
     match rs_sps s with
-    | None => Ok (s, 0)
+    | None => Ok (s, [])
     | Some _ =>
       let s1 := mk_rtsp (rs_done s) (rs_cache s) (rs_vps s) (rs_sps s) (rs_pps s) (rs_asc s) (rs_audio_pt s) (rs_video_pt s) (rs_apacker s) true in
       let* codec := video_codec_id fx m in
       let* en := (if codec =? codec_hevc then is_enhanced_hevc_nalu m else Ok false) in
       let* index := (if en then enhanced_hevc_nalu_index m else Ok 5%nat) in
-      if fx_rtspidx fx && en && Nat.leb (length p) index then Ok (s1, 0)
+      if fx_rtspidx fx && en && Nat.leb (length p) index then Ok (s1, [])
       else
         let* payload := from s_rtsp_remux p index in
         let* payload2 :=
@@ -136,15 +157,15 @@ Definition rtsp_remux (fx : fixes) (add : bool) (s : rtsp_st) (m : mmsg) : res (
              end
            else Ok payload) in
         (* the packer was created for r.videoPt: anything but AvPacketPtAvc packs as hevc *)
-        let* n := video_packets (negb (rs_video_pt s =? pt_avc)) payload2 in
+        let* n := video_payloads (negb (rs_video_pt s =? pt_avc)) payload2 in
         Ok (s1, n)
     end
-  else Ok (s, 0).
+  else Ok (s, []).
 
-Fixpoint rtsp_remux_all (fx : fixes) (add : bool) (s : rtsp_st) (l : list mmsg) (acc : N) : res (rtsp_st * N) :=
+Fixpoint rtsp_remux_all (fx : fixes) (add : bool) (s : rtsp_st) (l : list mmsg) (acc : list bytes) : res (rtsp_st * list bytes) :=
   match l with
   | [] => Ok (s, acc)
-  | m :: t => let* (s', n) := rtsp_remux fx add s m in rtsp_remux_all fx add s' t (acc + n)
+  | m :: t => let* (s', n) := rtsp_remux fx add s m in rtsp_remux_all fx add s' t (acc ++ n)
   end.
 
 Definition rtsp_max_analyze : nat := 16.
@@ -158,6 +179,17 @@ Definition rtsp_enough (s : rtsp_st) : bool :=
 (* aac.AscContext.GetSamplingFrequency fails for index > 12 *)
 Definition asc_sfi (asc : bytes) : N :=
   ((nth 0 asc 0 mod 8) * 2 + nth 1 asc 0 / 128).
+
+(* sdp.Pack(videoInfo, audioInfo) + ParseSdp2LogicContext of its own text: is there a description at all, and
+   which video payload type does it announce (0 none, 1 avc, 2 hevc) *)
+Definition sdp_desc (s : rtsp_st) : bool * N :=
+  let some := fun (o : option bytes) => match o with Some _ => true | None => false end in
+  let vkind := if rs_video_pt s =? pt_avc then (if some (rs_sps s) && some (rs_pps s) then 1 else 0)
+               else if rs_video_pt s =? pt_hevc then (if some (rs_sps s) && some (rs_pps s) && some (rs_vps s) then 2 else 0)
+               else 0 in
+  let has_audio := if rs_audio_pt s =? pt_aac then some (rs_asc s)
+                   else (rs_audio_pt s =? pt_g711a) || (rs_audio_pt s =? pt_g711u) || (rs_audio_pt s =? pt_opus) in
+  (negb (vkind =? 0) || has_audio, vkind).
 
 (* doAnalyze *)
 Definition rtsp_do_analyze (fx : fixes) (add : bool) (s : rtsp_st) : res (rtsp_st * list rtsp_ev) :=
@@ -174,13 +206,13 @@ Definition rtsp_do_analyze (fx : fixes) (add : bool) (s : rtsp_st) : res (rtsp_s
         Ok (mk_rtsp (rs_done s1) (rs_cache s1) (rs_vps s1) (rs_sps s1) (rs_pps s1) None pt_aac vpt (rs_apacker s1) (rs_vpacker s1), [])
       else
         let s2 := mk_rtsp (rs_done s1) (rs_cache s1) (rs_vps s1) (rs_sps s1) (rs_pps s1) (rs_asc s1) pt_aac vpt (rs_apacker s1) (rs_vpacker s1) in
-        let* (s3, n) := rtsp_remux_all fx add s2 (rs_cache s2) 0 in
+        let* (s3, n) := rtsp_remux_all fx add s2 (rs_cache s2) [] in
         Ok (mk_rtsp true [] (rs_vps s3) (rs_sps s3) (rs_pps s3) (rs_asc s3) (rs_audio_pt s3) (rs_video_pt s3) (rs_apacker s3) (rs_vpacker s3),
-            [RevSdp; RevRtp n])
+            [RevSdp (fst (sdp_desc s2)) (snd (sdp_desc s2)); RevRtp n])
     | None =>
-      let* (s3, n) := rtsp_remux_all fx add s1 (rs_cache s1) 0 in
+      let* (s3, n) := rtsp_remux_all fx add s1 (rs_cache s1) [] in
       Ok (mk_rtsp true [] (rs_vps s3) (rs_sps s3) (rs_pps s3) (rs_asc s3) (rs_audio_pt s3) (rs_video_pt s3) (rs_apacker s3) (rs_vpacker s3),
-          [RevSdp; RevRtp n])
+          [RevSdp (fst (sdp_desc s1)) (snd (sdp_desc s1)); RevRtp n])
     end.
 
 Definition set_audio_pt (s : rtsp_st) (pt : N) : rtsp_st :=
